@@ -655,6 +655,79 @@ def _lossless_fallback(ctx, fi):
     return 'the fallback candidate is %r at all %d call sites: it decodes every byte string, so the loop always returns' % (d.value, sites)
 
 
+def _d8_event_pairs(ctx):
+    repo, ck = ctx.repo, ctx.check
+    CLEANUP = {'recycle', 'abort', 'close', '__exit__'}
+    n = 0
+    for ci in [c for c in repo.classes.values() if c.module.name.startswith('wpull.protocol.') and c.module.name.endswith('.client')]:
+        def notes(m, ev):
+            out = []
+            for c in U.calls(m.node):
+                if U.attr_name(c) == 'notify' and c.args and isinstance(c.args[0], ast.Attribute) and c.args[0].attr == ev:
+                    out.append(c)
+            return out
+        for m in ci.methods.values():
+            if m.name not in CLEANUP:
+                continue
+            for c in U.calls(m.node):
+                if not (U.attr_name(c) == 'notify' and c.args and isinstance(c.args[0], ast.Attribute) and c.args[0].attr.startswith('end_')):
+                    continue
+                ev = c.args[0].attr
+                bev = 'begin_' + ev[4:]
+                begins = [(bm, bc) for bm in ci.methods.values() for bc in notes(bm, bev)]
+                if not begins:
+                    continue
+                n += 1
+                if m.name == '__exit__' and all(bm.name == '__enter__' for bm, bc in begins):
+                    # paired by the context-manager protocol: __exit__ runs only after __enter__ returned
+                    enter = [bm for bm, bc in begins][0]
+                    ecfg = ctx.cfg(enter)
+                    bn = [x for x in ecfg.stmt_nodes() if any(any(y is bc for y in ast.walk(x.stmt)) for bm, bc in begins)]
+                    p = ecfg.find_path(ecfg.entry, lambda x: x is ecfg.exit, edge_ok=F.normal, stop=lambda x: x in bn)
+                    ck.expect(p is None, 'C09-D8', m.qual, '%s in __exit__, %s on every normal path of __enter__' % (ev, bev),
+                              '__enter__ can return without notifying %s while __exit__ always notifies %s' % (bev, ev), enter.loc())
+                    continue
+                pm = U.parents(m.node)
+                guards = set()
+                for a in U.ancestors(c, pm):
+                    if isinstance(a, ast.If):
+                        for x in ast.walk(a.test):
+                            if U.is_self_attr(x):
+                                guards.add(x.attr)
+                    if isinstance(a, (ast.FunctionDef, ast.AsyncFunctionDef)):
+                        break
+                ok = False
+                why = 'the notification is unconditional' if not guards else ''
+                for g in sorted(guards):
+                    stores = []
+                    for sm in ci.methods.values():
+                        for st in walk_no_nested(sm.node):
+                            if isinstance(st, (ast.Assign, ast.AnnAssign)):
+                                tg = st.targets if isinstance(st, ast.Assign) else [st.target]
+                                v = st.value
+                                if any(U.is_self_attr(t, g) for t in tg) and not (isinstance(v, ast.Constant) and v.value in (None, False)):
+                                    stores.append((sm, st))
+                    if not stores:
+                        continue
+                    good = True
+                    for sm, st in stores:
+                        bcs = [bc for bm, bc in begins if bm is sm]
+                        cfg = ctx.cfg(sm)
+                        sn = [x for x in cfg.stmt_nodes() if x.stmt is st]
+                        bn = [x for x in cfg.stmt_nodes() if any(any(y is bc for y in ast.walk(x.stmt)) for bc in bcs)]
+                        if not sn or not bn or cfg.find_path(cfg.entry, lambda x: x in sn, edge_ok=F.normal, stop=lambda x: x in bn) is not None:
+                            good = False
+                            why = 'self.%s is set in %s before %s is notified (or in a method that does not notify it)' % (g, sm.name, bev)
+                    if good:
+                        ok = True
+                ck.expect(ok, 'C09-D8', m.qual, '%s is notified only after %s' % (ev, bev),
+                          '%s.%s notifies %s although %s may never have been (%s): a failure between the two - a refused connection - '
+                          'runs the listeners\' end handler on state their begin handler never built; the AttributeError replaces the '
+                          'network error and ends the crawl' % (ci.name, m.name, ev, bev, why), m.loc(c))
+    if n == 0:
+        raise AnalysisError('no end_* notification found in the clean-up methods of the protocol sessions (expected ftp Session.recycle)')
+
+
 def _d7_pasv(ctx):
     repo, ck, res = ctx.repo, ctx.check, ctx.res
     # the PASV parser is whatever the command layer calls on the reply text of passive_mode
@@ -893,6 +966,10 @@ def run(ctx):
     ck.rule('C09-D7', 'numbers a server supplies for the FTP data connection are range-checked before they become an address: every '
                       'group of the PASV pattern that can exceed 255 is refused with ValueError (converted to ProtocolError by the '
                       'caller) - connect() raises OverflowError, not a network error, for a port above 65535')
+    ck.rule('C09-D8', 'session clean-up (recycle / abort / close / __exit__) notifies an end_* event only when the matching begin_* event '
+                      'was notified: some field tested by the guard of the end notification is set only after the begin notification. '
+                      'Listeners (the WARC recorder) build in begin_* what end_* uses; an end without a begin raises AttributeError out of '
+                      'the session, in place of the network error that caused the clean-up')
     ck.rule('C09-D5', 'the crash path is as assumed: unexpected exception types are not in the application\'s EXPECTED_EXCEPTIONS, '
                       'REMOTE_ERRORS contains the four per-URL error kinds')
 
@@ -985,6 +1062,7 @@ def run(ctx):
     ck.info['escape_unknown_externals'] = dict(sorted(esc.unknown_external.items(), key=lambda kv: -kv[1])[:60])
 
     _d7_pasv(ctx)
+    _d8_event_pairs(ctx)
 
     # ------------------------------------------------------------------ D2
     SESSION_CALLS = {'start', 'start_listing', 'download', 'download_listing'}
